@@ -107,16 +107,19 @@ class Check:
             print("KNOWN-FINDING: property=%s rule=%s %s [%s] %s (%s)" % (
                 self.pid, v["rule"], v["function"], v["key"], k.get("what", v["message"]), v["where"]))
         paths = []
+        noev = bool(os.environ.get("VERIF_NO_EVIDENCE"))
+        vdir = VIOL_DIR if not noev else os.path.join(VERIF, ".work", "scratch-violations")
         if new:
-            os.makedirs(VIOL_DIR, exist_ok=True)
+            os.makedirs(vdir, exist_ok=True)
         for i, v in enumerate(new):
-            p = os.path.join(VIOL_DIR, "%s-%d.json" % (self.pid, i))
+            p = os.path.join(vdir, "%s-%d.json" % (self.pid, i))
             with open(p, "w") as f:
-                json.dump(v, f, indent=1)
+                json.dump(v, f, indent=1, default=str)
             paths.append(p)
             print("  rule %s: %s [%s] at %s: %s" % (v["rule"], v["function"], v["key"], v["where"], v["message"]))
             print("VIOLATION property=%s replay=%s" % (self.pid, p))
-        self._write_evidence(len(new), [m[1].get("id", m[0]["rule"]) for m in matched])
+        if not noev:
+            self._write_evidence(len(new), [m[1].get("id", m[0]["rule"]) for m in matched])
         return 1 if new else 0
 
     def _write_evidence(self, nviol, known_ids):
